@@ -1065,8 +1065,24 @@ fn parse_at_rule(text: &str) -> IResult<&str, ()> {
     skip_to_end_of_statement(rest)
 }
 
+// Skip a rule set which can't be parsed (for example one using unsupported
+// selectors), so that the rest of the stylesheet is still used.
+fn skip_unparsable_ruleset(text: &str) -> IResult<&str, ()> {
+    let (rest, _) = skip_to_end_of_statement(text)?;
+    if rest.len() == text.len() {
+        // Nothing skipped; don't claim progress.
+        fail(text)
+    } else {
+        Ok((rest, ()))
+    }
+}
+
 fn parse_statement(text: &str) -> IResult<&str, Option<RuleSet>> {
-    alt((map(parse_ruleset, Some), map(parse_at_rule, |_| None)))(text)
+    alt((
+        map(parse_ruleset, Some),
+        map(parse_at_rule, |_| None),
+        map(skip_unparsable_ruleset, |_| None),
+    ))(text)
 }
 
 pub(crate) fn parse_stylesheet(text: &str) -> IResult<&str, Vec<RuleSet>> {
